@@ -7,10 +7,11 @@ import itertools, random, re as _re, json
 from pyvc import groups
 from pyvc.groups import ob
 
-PATTERNS = ["a", "a*", "", "b|", "(a)(b)?", "[ab]+", "a(?=b)", "^a", "b$", "\\\\b"]
-PY = {"a": "a", "a*": "a*", "": "", "b|": "b|", "(a)(b)?": "(a)(b)?", "[ab]+": "[ab]+", "a(?=b)": "a(?=b)", "^a": "^a", "b$": "b$", "\\\\b": r"\b"}
+PATTERNS = ["a", "a*", "", "b|", "(a)(b)?", "[ab]+", "a(?=b)", "^a", "b$", "\\\\b", "aa", "a.", "(a)a", "[ab][ab]", "a{2}|b"]
+PY = {"a": "a", "a*": "a*", "": "", "b|": "b|", "(a)(b)?": "(a)(b)?", "[ab]+": "[ab]+", "a(?=b)": "a(?=b)", "^a": "^a", "b$": "b$", "\\\\b": r"\b",
+      "aa": "aa", "a.": "a.", "(a)a": "(a)a", "[ab][ab]": "[ab][ab]", "a{2}|b": "a{2}|b"}
 FLAGS = ["", "g", "y", "gy", "gi", "gm"]
-SUBJECTS = ["", "a", "ab", "baab", "aXa", "A\na"]
+SUBJECTS = ["", "a", "ab", "baab", "aXa", "A\na", "xaaay", "aaaa", "ababa"]
 
 
 def matcher(pat, flags):
